@@ -199,6 +199,13 @@ def powTwo (T : QMat) : Nat → QMat
 /-- the certificate `‖T^(2^k)‖∞ < 1` -/
 def stableCert (T : QMat) (k : Nat) : Bool := decide (infNorm (powTwo T k) < 1)
 
+/-! ## Square / triangular consistency (`_square_from_triangular`) -/
+
+/-- max-abs of `T Ua - Ua Ta`, `P - Ua Pa`, `K - Ua Ka`, `X - Ua Xa`, and the scale of the inputs -/
+def squareTriangularResiduals (T Ua Ta P Pa K Ka X Xa : QMat) : Rat × Rat × Rat × Rat × Rat :=
+  let scale := [T, Ua, Ta, P, Pa, K, Ka, X, Xa].foldl (fun m a => if m < a.maxAbs then a.maxAbs else m) 1
+  ((T * Ua - Ua * Ta).maxAbs, (P - Ua * Pa).maxAbs, (K - Ua * Ka).maxAbs, (X - Ua * Xa).maxAbs, scale)
+
 /-! ## Forward expansion and the impact of anticipated shocks -/
 
 /-- `_get_solution_expansion`: `[R_0, …, R_forward]`, `R_0 = P`, `R_k = -X J^(k-1) Ru` -/
